@@ -140,13 +140,15 @@ var c15RcvTags = []uint32{0, 0x50, 0xfffffffd /* replaced by the receiver's own 
 func c15Hostile(st c15State, genuine map[string][2][]byte) (out []c15Msg) {
 	R := st.W.P[st.R]
 	peer := st.W.P[1-st.R]
-	for _, kind := range []string{"COMMIT", "DHKEY", "REVEALSIG", "SIG", "DATA", "FRAG", "BADFRAG", "CUTCOMMIT"} {
+	for _, kind := range []string{"COMMIT", "DHKEY", "REVEALSIG", "SIG", "DATA", "FRAG", "BADFRAG", "CUTCOMMIT", "CUTDATA"} {
 		src := kind
 		switch kind {
 		case "BADFRAG":
 			src = "FRAG"
 		case "CUTCOMMIT":
 			src = "COMMIT"
+		case "CUTDATA":
+			src = "DATA"
 		}
 		g := genuine[src][1-st.R]
 		if g == nil {
@@ -162,8 +164,8 @@ func c15Hostile(st c15State, genuine map[string][2][]byte) (out []c15Msg) {
 			if !bytes.Contains(g, []byte(",0000x,")) {
 				continue
 			}
-		case "CUTCOMMIT":
-			// header (version, type, tags) plus three bytes of body: not a well-formed D-H Commit
+		case "CUTCOMMIT", "CUTDATA":
+			// header (version, type, tags) plus three bytes of body: not a well-formed D-H Commit / data message
 			raw, err := decode(encodedMessage(g))
 			if err != nil || len(raw) < 14 {
 				continue
@@ -197,7 +199,7 @@ func (m *c15Model) classify(x c15Msg) string {
 	if x.Snd < 0x100 || (x.Rcv > 0 && x.Rcv < 0x100) {
 		return "malformed"
 	}
-	if x.Kind == "BADFRAG" || x.Kind == "CUTCOMMIT" {
+	if x.Kind == "BADFRAG" || x.Kind == "CUTCOMMIT" || x.Kind == "CUTDATA" {
 		// valid tags on something that is not a well-formed message or fragment: teaches nothing
 		return "illformed"
 	}
@@ -244,9 +246,10 @@ func c15RunSeq(st c15State, seq []c15Msg, seed int64) (fs []verifFinding, classe
 			if r.Panic != "" {
 				bad("panic:"+verifPanicClass(r.Panic), "%s", r.Panic)
 			}
-			if model.Bound == 0 && (r.Err == "" || R.C.theirInstanceTag != 0) {
-				// a message with valid tags that the conversation could process teaches it the peer's instance; one
-				// that it turned down with an error may (the statement says "only from", not "from every")
+			if model.Bound == 0 && (R.C.theirInstanceTag != 0 || x.Kind != "DATA" && r.Err == "") {
+				// a key-exchange message with valid tags that the conversation could process teaches it the peer's
+				// instance; one that it turned down with an error, or a data message outside a session (which it cannot
+				// even parse), may or may not (the statement says "only from", not "from every")
 				model.Bound = x.Snd
 			}
 			if R.C.theirInstanceTag != model.Bound {
@@ -294,7 +297,7 @@ func c15RunSeq(st c15State, seq []c15Msg, seed int64) (fs []verifFinding, classe
 			// what an ill-formed message from the right instance does to the session is C06's and C13's subject; here
 			// it must not teach the conversation who its peer is
 			if R.C.theirInstanceTag != boundBefore {
-				bad("binding-changed-by-illformed", "ill-formed message %s changed the bound peer instance from %#x to %#x", c15Desc(x), boundBefore, R.C.theirInstanceTag)
+				bad("binding-changed-by-illformed", "ill-formed message %s changed the bound peer instance from %#x to %#x (Receive returned err=%q, events %s)", c15Desc(x), boundBefore, R.C.theirInstanceTag, r.Err, verifEventsString(r.Events))
 				model.Bound = R.C.theirInstanceTag
 			}
 		default:
@@ -366,7 +369,7 @@ func init() {
 			return nil
 		},
 		Run: func(r *verifReport) {
-			r.Rule = "(a) every scripted answer sequence of length ≤ 3 over {0,1,0xff,0x100,0x101,0xffffffff} to the 4-byte reads of the randomness source: own tag ≥ 0x100 and carried by every emitted v3 header; (b) receiver in each state of an honest v3 exchange (fresh before and after drawing its own tag, after each handshake step in both roles, encrypted, after traffic, right after a fragmented message was reassembled, finished) × every sequence of ≤ 2 (thorough: 3 for the first-message kinds) messages from {DH-Commit, DH-Key, Reveal-Sig, Sig, data, fragment, fragment with a non-numeric counter, D-H Commit cut after 3 body bytes} × sender tag {0,1,0xff,0x100,peer,other valid} × receiver tag {0,0x50,own,other valid} built from genuine traffic; lock-step reference model of the binding; foreign/malformed messages: no plaintext, no reply except an OTR error for malformed ones, conversation state hash unchanged, binding unchanged; after every sequence that changed nothing the genuine continuation is trivially identical, after one that did the continuation is run differentially; (c) ExtractInstanceTags on every message and fragment of (b) returns exactly the tags written"
+			r.Rule = "(a) every scripted answer sequence of length ≤ 3 over {0,1,0xff,0x100,0x101,0xffffffff} to the 4-byte reads of the randomness source: own tag ≥ 0x100 and carried by every emitted v3 header; (b) receiver in each state of an honest v3 exchange (fresh before and after drawing its own tag, after each handshake step in both roles, encrypted, after traffic, right after a fragmented message was reassembled, finished) × every sequence of ≤ 2 (thorough: 3 for the first-message kinds) messages from {DH-Commit, DH-Key, Reveal-Sig, Sig, data, fragment, fragment with a non-numeric counter, D-H Commit / data message cut after 3 body bytes} × sender tag {0,1,0xff,0x100,peer,other valid} × receiver tag {0,0x50,own,other valid} built from genuine traffic; lock-step reference model of the binding; foreign/malformed messages: no plaintext, no reply except an OTR error for malformed ones, conversation state hash unchanged, binding unchanged; after every sequence that changed nothing the genuine continuation is trivially identical, after one that did the continuation is run differentially; (c) ExtractInstanceTags on every message and fragment of (b) returns exactly the tags written"
 			r.Assumptions = []string{"whether a well-formed first message addressed to another receiver instance binds the peer tag is left open (both accepted)", "hostile messages are genuine messages with rewritten tags"}
 			c15OwnTag(r)
 			c15Extract(r)
@@ -414,7 +417,7 @@ func init() {
 				for i := range hs {
 					jobs <- job{st, []c15Msg{hs[i]}}
 					for j := range hs {
-						if r.Tier == "quick" && (hs[j].Kind == "BADFRAG" || hs[j].Kind == "CUTCOMMIT") {
+						if r.Tier == "quick" && (hs[j].Kind == "BADFRAG" || hs[j].Kind == "CUTCOMMIT" || hs[j].Kind == "CUTDATA") {
 							continue // quick: the ill-formed carriers of valid tags come first or alone (a binding is only learnt once)
 						}
 						jobs <- job{st, []c15Msg{hs[i], hs[j]}}
